@@ -173,6 +173,13 @@ def main():
             gen_obl += list(_pybasis.obligations_for(sp, modelmod.LEAN_DIR, list(mod.PYBASIS_METHODS)))
         except Exception as e:  # fail closed
             gen_obl.append({'name': 'pybasis-translator', 'ok': False, 'detail': 'translator crashed: %r' % (e,)})
+    # splineobject.py methods likewise (harness/translate/object_translate.py, Lemmas/PyObjectEq.lean)
+    if getattr(mod, 'PYOBJECT_METHODS', None):
+        from props import _pyobject
+        try:
+            gen_obl += list(_pyobject.obligations_for(sp, modelmod.LEAN_DIR, list(mod.PYOBJECT_METHODS)))
+        except Exception as e:  # fail closed
+            gen_obl.append({'name': 'pyobject-translator', 'ok': False, 'detail': 'translator crashed: %r' % (e,)})
     gen_failed_known = []
     for o in gen_obl:
         if not o.get('ok'):
